@@ -26,6 +26,9 @@ def main():
     diff = os.path.join(seed, 'change%s.diff' % n)
     demo = os.path.join(seed, 'demo%s.py' % n)
     out = {'property': pid, 'n': n, 'checks': {}}
+    head = sh('git -C /repo rev-parse HEAD')[1].strip()
+    sh('git checkout -- torchtt && git checkout -q --detach %s' % head, cwd=wt)
+    out['repo_head'] = head
     rc, o = sh('git checkout -- torchtt && git apply --check %s' % diff, cwd=wt)
     if rc != 0:
         print('patch does not apply:', o)
